@@ -10,8 +10,9 @@ import (
 type vpByteReader struct {
 	b     []byte
 	pos   int
-	chunk int // > 0: short reads of at most chunk bytes
-	fail  int // >= 0: fail (injected error) once pos reaches fail
+	chunk int  // > 0: short reads of at most chunk bytes
+	once  bool // one multi-byte read of the run, any of them, is cut short anywhere
+	fail  int  // >= 0: fail (injected error) once pos reaches fail
 }
 
 var vpErrInjected = errors.New("vp: injected failure")
@@ -40,6 +41,11 @@ func (r *vpByteReader) Read(p []byte) (int, error) {
 	}
 	if r.chunk > 0 && n > r.chunk {
 		n = r.chunk
+	}
+	if r.once && n > 1 {
+		if k := vp.Choice(n); k > 0 {
+			n, r.once = k, false
+		}
 	}
 	copy(p, r.b[r.pos:r.pos+n])
 	r.pos += n
